@@ -55,6 +55,9 @@ def astep (a : ASt) : Op → ASt
       if s < a.nSections then
         { (a.emit (.section s)) with cur := s, entered := s :: a.entered, reentered := a.reentered || a.entered.contains s }
       else a
+  -- embed_const_pool is described by its node-level decomposition align; bind; data (what a Builder serialises). Whether the assembler
+  -- then accepts the bind (ranges of pending fixups) is outside this model; a directly issued embed_const_pool validates that first and
+  -- leaves nothing when it refuses, whereas the decomposed sequence has emitted the padding - equal first error, equal accepted prefix.
   | .cpool l isz bytes =>
       if !cpoolPre isz bytes then a else
       if !(l < a.nLabels) then a else
